@@ -8,7 +8,7 @@ use crate::props::c01::{gen_msg, MsgCase};
 use crate::props::parse_case;
 use crate::refcodec::{self, Strictness};
 use crate::sim::{run_sim, Frames, Kind, Out, Sim};
-use crate::streams::{self, StreamSpec};
+use crate::streams::{self, ItemSpec, StreamSpec};
 
 use serde::{Deserialize, Serialize};
 use serde_json::{json, Value};
@@ -638,6 +638,25 @@ pub fn run(ctx: &Ctx) -> (Report, PropertyMeta) {
     report.exhaustive_parts.push(format!("every single cut and every pair of cuts (incl. inside the greeting) of {} streams x {{open, EOF}}: {} runs", medium.len(), r.evaluations));
     report.merge(r);
 
+    // frames far beyond the framed reader's 8 KiB read size (and beyond any "reasonable" buffer
+    // bound someone may put into the decoder): the frame is incomplete for hundreds of reads
+    {
+        use crate::props::c01::{Fill, FrameSpec};
+        let mut big = vec![];
+        for lens in [vec![(1usize << 20) - 1], vec![1 << 20], vec![(1 << 20) + 1], vec![3, (3 << 20) + 17, 0], vec![(1 << 20) + 4321, (1 << 20) + 1]] {
+            let frames: Vec<FrameSpec> = lens.iter().map(|l| FrameSpec { len: *l, fill: Fill::Seed(*l as u32) }).collect();
+            let stream = StreamSpec { greeting: true, items: vec![ItemSpec::Message(frames), ItemSpec::Message(vec![FrameSpec { len: 2, fill: Fill::Ones }])], truncate: None };
+            let total = stream.encode().len();
+            for chunks in [vec![], vec![64], vec![64 + 9 + 1000], vec![total - 5], vec![70_000; total / 70_000], vec![8192; total / 8192]] {
+                for end in [EndKind::Open, EndKind::Eof] {
+                    big.push(PartCase { stream: stream.clone(), chunks: chunks.clone(), end });
+                }
+            }
+        }
+        let r = run_cases(ctx, "partition", &big, part_outcome);
+        report.exhaustive_parts.push(format!("messages with frames of 2^20 - 1 / 2^20 / 2^20 + 1 / 3 MiB + 17 bytes (and two > 1 MiB frames in one message) followed by a small message x 6 partitions x {{open, EOF}}: {} runs", big.len()));
+        report.merge(r);
+    }
     let n = t.pick(20_000, 400_000);
     let max_exp = t.pick(17, 20);
     let r = run_random(
